@@ -137,6 +137,9 @@ def propagate_literals(hyps, goal):
 
 def _check_goal(it, goal, label, inputs, hyps=None):
     """Discharge one goal on the current path. Returns (status, detail)."""
+    if label in getattr(it, "already_refuted", ()):
+        # this obligation already has a counter-model on another path of the same function: no need to search again
+        return "refuted", {"backend": "skipped (refuted on an earlier path)", "counterexample": None}
     if isinstance(goal, bool):
         goal = z3.BoolVal(goal)
     goal = z3.simplify(goal)
@@ -162,6 +165,7 @@ def run_path(c, decisions, contracts, world, cfg) -> PathResult:
     pr = PathResult()
     it = Interp(world, decisions, contracts, solver_timeout_ms=cfg.get("timeout_ms", 10000), verifying=c.key)
     it.variant_label = cfg.get("variant_label")
+    it.already_refuted = cfg.get("already_refuted", set())
     if c.timeout_ms:
         it.solver_timeout_ms = c.timeout_ms
     t0 = time.time()
@@ -347,6 +351,7 @@ def verify_contract(c, contracts, cfg=None):
             oos.append(f"path budget {c.max_paths} exhausted")
             break
         decisions = worklist.pop()
+        cfg["already_refuted"] = {l.split(":", 1)[1] if ":" in l else l for l, a in agg.items() if a["status"] == "refuted"}
         try:
             pr = run_path(c, decisions, contracts, world, cfg)
         except KeyError as e:
